@@ -13,6 +13,10 @@ let leaves_str (p : pg_doc) : string =
   | None -> "x"
   | Some l -> String.concat "" (List.map (fun m -> mk_str m ^ ",") l)
 
+(* which theorem's hypothesis the document state satisfies: 1 = pgx_flat_chk (pages_refine_list), n = pgn_wf_chk
+   (first_flatten_nested: a well-formed nested tree as read), 0 = neither *)
+let dom (p : pg_doc) : string = if pgx_flat_chk p then "1" else if pgn_wf_chk p then "n" else "0"
+
 let reread_str (p : pg_doc) : string =
   match pgx_reread p with
   | None -> "E"
@@ -30,7 +34,7 @@ let () =
            if obsl >= 1 then begin ignore (H_pages.pagelist w false); ignore (H_pages.pagelist w true) end;
            if obsl >= 2 then begin ignore (H_pages.findall w false); ignore (H_pages.findall w true) end;
            Buffer.add_string out ("L=" ^ leaves_str (fst !w) ^ "/" ^ leaves_str (snd !w) ^
-                                  " F=" ^ (if pgx_flat_chk (fst !w) then "1" else "0") ^ (if pgx_flat_chk (snd !w) then "1" else "0") ^ "|") in
+                                  " F=" ^ dom (fst !w) ^ dom (snd !w) ^ "|") in
          obs ();
          let opstr = match rest with o :: _ -> o | [] -> "" in
          if opstr <> "-" && opstr <> "" then
@@ -48,7 +52,7 @@ let () =
        | _ -> "?no-template")
     | _ -> "?args");
   register "pgxflat" (fun args -> match args with
-    | [name] -> (match Hashtbl.find_opt H_pages.templates name with Some p -> if pgx_flat_chk p then "1" else "0" | None -> "?no-template")
+    | [name] -> (match Hashtbl.find_opt H_pages.templates name with Some p -> dom p | None -> "?no-template")
     | _ -> "?args");
   register "pgxleaves" (fun args -> match args with
     | [dump] -> leaves_str (H_pages.doc_of_text (unhex dump))
